@@ -29,6 +29,7 @@ type Stage struct {
 	// Layouts, if set: every kept behaviour is replayed once under EACH of these page layouts
 	// (instead of under one of the standard concretisations chosen per behaviour)
 	Layouts []sim.Layout
+	Always  []string // behaviours that contain one of these actions are kept regardless of the sample size
 	AllCfgs bool     // replay every kept behaviour under EVERY standard concretisation (not one chosen per behaviour)
 	Needs   []string // further required actions; "Name*2" = at least two occurrences
 	Need    string   // if set, keep only behaviours that contain an action with this name
@@ -38,9 +39,13 @@ type Stage struct {
 
 // Collect runs the stage; a model-level violation is an infrastructure failure (R2: the model is
 // fixed, it does not depend on /repo), never a verdict about the code.
+// lastAlways holds the behaviours the most recent Collect kept because of Stage.Always.
+var lastAlways []Trace
+
 func Collect(rep *core.Report, st Stage, seed int64) []Trace {
+	lastAlways = nil
 	var mu sync.Mutex
-	var traces []Trace
+	var traces, always []Trace
 	seen := 0
 	rnd := rand.New(rand.NewSource(seed))
 	mod := st.Module
@@ -84,6 +89,19 @@ func Collect(rep *core.Report, st Stage, seed int64) []Trace {
 					return
 				}
 			}
+			for _, al := range st.Always {
+				if bytes.Contains(payload, []byte(`"a":"`+al+`"`)) {
+					var t Trace
+					if err := json.Unmarshal(payload, &t); err != nil {
+						core.Infra("bad TRACE line: %v", err)
+					}
+					mu.Lock()
+					seen++
+					always = append(always, t)
+					mu.Unlock()
+					return
+				}
+			}
 			mu.Lock()
 			seen++
 			slot := -1
@@ -109,7 +127,8 @@ func Collect(rep *core.Report, st Stage, seed int64) []Trace {
 		core.Infra("model checking stage %s failed (a model problem, not a verdict about the code): %s\n%s\n%s", st.Name, res.Describe(), res.ErrorText, res.OutputTail)
 	}
 	rep.AddTLC(st.Name, res)
-	rep.Note("stage %s: %d behaviours emitted by TLC, %d kept for replay", st.Name, seen, len(traces))
+	lastAlways = always
+	rep.Note("stage %s: %d behaviours emitted by TLC, %d sampled for replay, %d more kept unconditionally (replayed under every concretisation)", st.Name, seen, len(traces), len(always))
 	return traces
 }
 
@@ -268,6 +287,9 @@ func Main(rep *core.Report, args *core.Args, prop string, stages []Stage) {
 			replayAll(rep, prop, traces, cfgs, args.Seed, true, st.Workers)
 		} else {
 			ReplayAll(rep, prop, traces, cfgs, args.Seed)
+		}
+		if len(lastAlways) > 0 {
+			replayAll(rep, prop, lastAlways, cfgs, args.Seed, true, st.Workers)
 		}
 		stageDone()
 	}
